@@ -46,6 +46,9 @@ type Case struct {
 	Docs      []string `json:"docs,omitempty"`
 	Via       []string `json:"via,omitempty"`
 	LoadFirst bool     `json:"load_first,omitempty"`
+	// kind "front": the file is "---\n" + FM + "---\n" + Src when HasFM, else Src (front_test.go)
+	HasFM bool   `json:"has_fm,omitempty"`
+	FM    string `json:"fm,omitempty"`
 }
 
 var known = kf.Load()
@@ -614,6 +617,8 @@ func replay(kind string, raw json.RawMessage) error {
 	switch {
 	case strings.HasPrefix(kind, "bytes"), strings.HasPrefix(kind, "Fuzz"):
 		return run.Decode(raw, checkBytes)
+	case strings.HasPrefix(kind, "front"):
+		return run.Decode(raw, func(c Case) error { return checkFront(c, nil) })
 	case strings.HasPrefix(kind, "session"):
 		return run.Decode(raw, func(c Case) error { return checkSession(c, nil) })
 	case strings.HasPrefix(kind, "override"):
@@ -881,6 +886,9 @@ func TestProp(t *testing.T) {
 
 	// (4) histories: several documents on one Markdown instance, sharing link reference labels
 	run.Rapid(t, rec, "session", genSession(rec), classifySession, func(c Case) error { return checkSession(c, st) })
+
+	// (4b) the Load path with YAML front matter and --- lines in the body
+	run.Rapid(t, rec, "front", genFront(rec), classifyFront, func(c Case) error { return checkFront(c, st) })
 
 	// (5) arbitrary byte strings: rendering never fails
 	run.Rapid(t, rec, "bytes", genBytes(rec), classifyBytes, checkBytes)
